@@ -33,6 +33,40 @@ def c02_class(case, obs):
     return {"len": _len_class(n), "from_slice": _prefix(obs.get("fs", obs.get("crash"))),
             "read": _prefix(obs.get("rd", obs.get("crash"))), "decode": _prefix(obs.get("dec", obs.get("crash")))}
 
+def stream_class(case, obs):
+    ops = case.get("ops", "-")
+    kinds = sorted(set(o.split(":")[0][0] for o in ops.split(";"))) if ops != "-" else []
+    n = 0 if ops == "-" else ops.count(";") + 1
+    steps = obs.get("steps", obs.get("crash", ""))
+    feats = []
+    if "granted" in steps: feats.append("granted")
+    if "ctimeout" in steps: feats.append("credit-timeout")
+    if "ccan" in steps or "tcan" in steps or "rcan" in steps: feats.append("cancelled")
+    if "rok:" in steps: feats.append("resume-accepted")
+    if "roow" in steps: feats.append("resume-out-of-window")
+    if "ready:" in steps: feats.append("resume-ready")
+    big = any(len(t) > 10 for t in re_split(ops))
+    return {"ops": _len_class(n), "op_kinds": "".join(kinds), "features": "+".join(feats) or "none", "values": "64-bit" if big else "small"}
+
+import re as _re
+def re_split(ops):
+    return _re.split(r"[;:]", ops)
+
+def c18_class(case, obs):
+    ops = case.get("ops", "-")
+    n = 0 if ops == "-" else ops.count(";") + 1
+    steps = obs.get("steps", "")
+    return {"ops": _len_class(n), "universe": case.get("ids", "?").count(".") + 1,
+            "has_alias": str("L:" in ops), "has_remove": str("X:" in ops), "has_broadcast": str("B" in ops.split(";")),
+            "alias_attached": str("b1/" in steps)}
+
+def c19_class(case, obs):
+    if "tags" in case:
+        return {"kind": case.get("kind", "?"), "scenario": "broadcast-tags", "nodes": case["tags"].count(".") + 1, "first": "-", "max": "-"}
+    sc = case.get("script", "-")
+    return {"kind": case.get("kind", "?"), "scenario": "retry", "script_len": 0 if sc == "-" else len(sc), "max": case.get("max", "?"),
+            "first": obs.get("res", obs.get("crash", "?")), "attempts": obs.get("att", "?")}
+
 PROPS = {
     "C01": {
         "harness": "c01", "driver": "c01", "shards": 16,
@@ -49,5 +83,33 @@ PROPS = {
         "nontrivial": lambda cls: cls["decode"] != "err:hlen" and cls["decode"] != "err:spec",
         "rule": "cases = exhaustive 14^3 product of boundary classes of the three length fields x 3 buffer lengths, wrapping sums, valid frames with every truncation point and structured mutations, random byte strings <=4 KiB; distinct = distinct byte string; non-trivial = >=48 bytes with the REPE magic (reaches the length arithmetic)",
         "timeout_s": {"quick": 600, "thorough": 3000},
+    },
+    "C11": {
+        "harness": "c11", "driver": "c11", "driver_args": ["C11"], "shards": 16,
+        "classify": stream_class,
+        "nontrivial": lambda cls: cls["features"] != "none",
+        "rule": "cases = every operation sequence of length 4 (quick) / 5 (thorough) over a 17-symbol alphabet of sends, acks (current and foreign file), advance, resumes, cancels with two reasons, credit requests, reconnect polls and a push, window 2, plus random histories up to 200 ops over 64-bit boundary values with hostile acks and oversized chunks, plus directed overflow corners; distinct = distinct history; non-trivial = at least one credit decision, cancel report or resume decision was observed",
+        "timeout_s": {"quick": 600, "thorough": 3000},
+    },
+    "C13": {
+        "harness": "c13", "driver": "c11", "driver_args": ["C13"], "shards": 16,
+        "classify": stream_class,
+        "nontrivial": lambda cls: "resume" in cls["features"],
+        "rule": "cases = every sequence of length 4 (quick) / 5 (thorough) over a 16-symbol alphabet of contiguous pushes (logical lengths 0..2, wire overhead 0..1), resumes at offsets 0..3 (current and wrong file; each followed by a replay query), advance, cancel, reconnect poll, ack, send, for ring capacities 0, 2 and 5, plus random long histories with capacities 0..4096; distinct = distinct history; non-trivial = a resume was decided (accepted or refused) in it",
+        "timeout_s": {"quick": 600, "thorough": 3000},
+    },
+    "C18": {
+        "harness": "c18", "driver": "c18", "shards": 16,
+        "classify": c18_class,
+        "nontrivial": lambda cls: cls["alias_attached"] == "True",
+        "rule": "cases = every sequence of length 4 (quick) / 5 (thorough) over insert/remove/alias/broadcast on 3 peers x 3 keys (16 symbols), the same alphabet to depth 3/4 after a prefix that attaches three aliases, and random histories up to 300 ops over up to 6 peers x 6 keys; after every operation the full observable state (get, get_by, aliases_for, key_for, len) is recorded; distinct = distinct history; non-trivial = at least one alias was attached",
+        "timeout_s": {"quick": 600, "thorough": 3000},
+    },
+    "C19": {
+        "harness": "c19", "driver": "c19", "shards": 4, "harness_shards": 16,
+        "classify": c19_class,
+        "nontrivial": lambda cls: cls["scenario"] == "broadcast-tags" or cls.get("script_len", 0) >= 1,
+        "rule": "cases = every per-attempt behaviour script of length <= min(max+1,3) (quick; at most one silent attempt) / <= max+2 (thorough) over {refused, accepted-then-closed, closed-while-idle, silent, malformed reply, application error, success} for max_attempts 1..3, blocking and async fleet, each followed by len+2 calls during which the node turns healthy; the fleet.attempt probe switches the scripted node synchronously before every attempt; plus tag-subset broadcasts over up to 3 nodes x 3 tags; distinct = distinct scenario; non-trivial = non-empty script or a tag broadcast",
+        "timeout_s": {"quick": 900, "thorough": 3400},
     },
 }
